@@ -1,7 +1,9 @@
 #!/usr/bin/env python3
 """seedtest.py <ID> <k> [tier] [--props C01,C02]: copy /tmp/seed_out/<ID>/<k> (or use /verif/seeded/<ID>-<k>) , apply its patch to /repo, run ./check, undo.
 Writes /verif/seeded/<ID>-<k>/result.json"""
-import sys, os, json, subprocess, shutil, time
+import sys, os, json, subprocess, shutil, time, fcntl
+_lock = open('/tmp/repo.lock', 'w')
+fcntl.flock(_lock, fcntl.LOCK_EX)      # /repo is shared with other runs of ./check: one user at a time
 V = '/verif'
 pid, k = sys.argv[1], sys.argv[2]
 tier = sys.argv[3] if len(sys.argv) > 3 and not sys.argv[3].startswith('--') else 'quick'
